@@ -179,6 +179,8 @@ func (cs *condSpec) applyCfg(pts data.Points) {
 			case idx >= 0 && idx < len(cs.Sched.Dates):
 				cs.Sched.Dates[idx] = p.Text
 			}
+		case data.PointTypeNodeID:
+			cs.NodeID = p.Text
 		case "value":
 			cs.Value = p.Value
 		case "valueText":
@@ -437,8 +439,8 @@ func runC13(tier string, _ []string) int {
 			}
 			mkNode(ruleID, P, data.NodeTypeRule, data.Points{pt("description", "rule "+tag, 0)})
 			nCond := 1 + r.Intn(4)
-			if r.Chance(0.05) {
-				nCond = 0
+			if r.Chance(0.03) || i%13 == 5 {
+				nCond = 0 // (every thirteenth rule, whatever the draw)
 			}
 			for k := 0; k < nCond; k++ {
 				cs := condSpec{ID: fmt.Sprintf("%s-c%d", tag, k)}
@@ -912,6 +914,10 @@ func runC13(tier string, _ []string) int {
 						ep = data.Points{ept(data.PointTypeWeekday, fmt.Sprint(w), "", v)}
 						feat["edit-weekday"] = true
 					}
+				} else if r.Chance(0.35) {
+					// the condition is pointed at another node (or at all nodes)
+					ep = data.Points{ept(data.PointTypeNodeID, "", append([]string{""}, sources...)[r.Intn(len(sources)+1)], 0)}
+					feat["edit-retarget"] = true
 				} else {
 					switch cs.ValueType {
 					case data.PointValueNumber:
